@@ -2,4 +2,6 @@
 MODULES = [
     "isotp",
     "isotp_lemmas",
+    "strictmode",
+    "leaf",
 ]
